@@ -25,3 +25,5 @@ def run(ctx):
     # the bucket capacity and tree count are statements about the forest the build leaves: C01 / C06 premises re-evaluated
     import premises
     premises.forest(ctx)
+    import rules as _rules
+    ctx.floor('R-SETTER', 'option setters', _rules.r_setters(ctx, ('writer::ArroyBuilder',)), 5)
